@@ -242,7 +242,10 @@ def run_check(spec, tier, seed):
     coverage = {
         "obligations": obligations if obligations else 1,
         "discharged": obligations if (thm and not any(w.startswith(("lake build", "axiom", "forbidden", "Props", "leanchecker")) for w, _ in broken)) else 0,
-        "checker_cmd": f"cd lean && lake build Asn1Verif.Props.{prop} && lake env lean Asn1Verif/Audit/{prop}.lean" + (f" && lake env leanchecker Asn1Verif.Props.{prop}" if tier == "thorough" else ""),
+        "checker_cmd": " && ".join(
+            ["cd lean"] + [f"lake build Asn1Verif.Props.{q} && lake env lean Asn1Verif/Audit/{q}.lean"
+                           for q in [prop] + list(getattr(spec, "extra_prop_files", []))]
+            + ([f"lake env leanchecker Asn1Verif.Props.{prop}"] if tier == "thorough" else [])),
         "trusted_base": spec.trusted_base,
         "theorems": thm,
         "supporting_lemmas_in_imported_modules": lemma_count,
